@@ -116,6 +116,18 @@ def check_outputs_agree(ctx, cfg, res, stored_tree):
                 else 'bootstrapping_probability'
             clabel = 'correlation_coefficient' if iters == 1 \
                 else 'bootstrapping_probability'
+            want_cols = ['cell_id']
+            for lv0 in stored_tree.hierarchy:
+                lv = stored_tree.level_to_name(lv0)
+                want_cols += [f'{lv}_label', f'{lv}_name']
+                if lv0 == stored_tree.leaf_level:
+                    want_cols.append(f'{lv}_alias')
+                want_cols.append(f'{lv}_{clabel}')
+            ctx.check(rows == [] or sorted(rows[0].keys())
+                      == sorted(want_cols),
+                      'CSV columns: cell id, and label / name (/ alias at '
+                      'the leaf level) / confidence per level - nothing '
+                      'else')
             for r, c in zip(rows, results):
                 for lv0 in stored_tree.hierarchy:
                     a = c[lv0]['assignment']
